@@ -143,10 +143,16 @@ where
         mut y: Self::State,
         id: &ID,
     ) -> Result<(Self::State, Option<OneTimeKeyBundle>), Self::Error> {
-        let bundle = y
-            .onetime_bundles
-            .get_mut(id)
-            .and_then(|bundles| bundles.pop());
+        let bundle = y.onetime_bundles.get_mut(id).and_then(|bundles| {
+            // Bundles were valid when they got added but might have expired in the meantime: drop
+            // those and only hand out a bundle which is still valid right now.
+            while let Some(bundle) = bundles.pop() {
+                if bundle.lifetime().verify().is_ok() {
+                    return Some(bundle);
+                }
+            }
+            None
+        });
         Ok((y, bundle))
     }
 }
